@@ -528,6 +528,13 @@ def _engine_lookups(repo, rep):
 def _nametransform_rule(repo, rep):
     _capturable_helpers(repo, rep)
     _engine_lookups(repo, rep)
+    # a template variable named 'target_language' must not change what
+    # OTHER expressions are translated into: compiler fragments emitted as
+    # expression code bind the name to a node the rewriter leaves alone
+    # (C10 owns the rule)
+    from .c10 import rewriter_proof
+    L.borrow(repo, rep, "R05.5", "C10", rewriter_proof,
+             ("rewriter-proof", "rewriter-covers-engines"), minimum=4)
     f = repo.func("chameleon.compiler.NameTransform.__call__")
     site = f.qualname
     w = L.where(f)
